@@ -107,7 +107,10 @@ def make_files(ctx, fa, n, label):
 
 
 def run_c06(ctx, fa):
-    from . import p_layout
+    from . import mcheck, p_layout
+    # M: every cut offset and every altered sync byte of every file reachable by the writer model within MaxOps operations
+    mcheck.model_check(ctx, "MC_Writer", {"MaxOps": 3 if ctx.quick() else 5, "Policy": "any", "Interval": 3},
+                       ["InvFile", "InvCutSafe", "InvSyncSafe"], "cuts", spec="Spec")
     nfiles = 40 if ctx.quick() else 400
     rnd = ctx.sub_rnd("cuts")
     files = make_files(ctx, fa, nfiles, "files")
